@@ -1,0 +1,48 @@
+//go:build verif
+
+package kafka
+
+// Contracts for the verification harness under /verif (comment-only file).
+//
+// C19: one Kafka record per deliverable event.  The ForEach callback fills record
+// slot i with the event's encoding (a view of the bytes Encode has just appended)
+// and advances i by one; what is produced is exactly the first i slots - never a
+// slot left over from an earlier, larger batch.  (i < len(messages) inside the
+// callback rests on the batcher's count limit being batch_size, which is also the
+// length of the slot table: an assumption between components, listed.)
+
+//@ func (*Plugin).out$1
+//@   option allow-exit yes
+//@   requires data != nil && 0 <= i && i < len(data.messages)
+//@   ensures i == old(i) + 1 && len(data.messages) == old(len(data.messages))
+//@   ensures data.messages[old(i)] != nil
+//@   callee Encode(buf) (r, n)
+//@     pure
+//@     ensures 0 <= n && n <= len(r)
+//@   callee Dig(path) (n)
+//@     pure
+//@   callee AsString() (s)
+//@     pure
+//@   callee CloneString(s) (r)
+//@     pure
+//@   callee Now() (t)
+//@     pure
+
+//@ func (*Plugin).out
+//@   option allow-exit yes
+//@   requires p.config.BatchSize_ >= 0 && p.config.BatchSize_ * p.avgEventSize >= 0
+//@   requires workerData != nil && (isnil(*workerData) || typeis(*workerData, "*github.com/ozontech/file.d/plugin/output/kafka.data"))
+//@   callee ForEach(cb)
+//@     requires data != nil && i == 0
+//@     ensures data != nil && 0 <= i && i <= len(data.messages)
+//@   callee ProduceSync(c, rs) (r)
+//@     requires sameblock(rs, data.messages) && off(rs) == off(data.messages) && len(rs) == i
+//@     pure
+//@   callee WithTimeout(c, d) (ctx, cancel)
+//@     pure
+//@   callee FirstErr() (e)
+//@     pure
+//@   callee Errorf(f, a)
+//@     pure
+//@   callee Inc()
+//@     pure
